@@ -35,12 +35,61 @@ var primSet = map[string]bool{
 	"encoding/json.Marshal": true, "encoding/json.Unmarshal": true,
 }
 
+func init() {
+	for _, t := range []string{"Int32", "Int64", "Uint32", "Uint64", "Bool"} {
+		for _, op := range []string{"Load", "Store", "Add", "CompareAndSwap", "Swap"} {
+			if t == "Bool" && op == "Add" {
+				continue
+			}
+			primSet["(*sync/atomic."+t+")."+op] = true
+		}
+	}
+	for _, n := range []string{"time.Since", "time.Until", "time.Sleep", "(time.Duration).Seconds", "(time.Duration).Milliseconds", "(time.Duration).String",
+		"strings.HasPrefix", "strings.HasSuffix", "strings.Contains", "strings.TrimSpace", "strings.ToLower", "strings.ToUpper", "strconv.Itoa", "fmt.Sprint", "fmt.Sprintln", "errors.Unwrap"} {
+		primSet[n] = true
+	}
+}
+
+// atomicOp: (type, operation) of a sync/atomic method on the integer and boolean atomic types, "" otherwise.
+func atomicOp(n string) (string, string) {
+	const pre = "(*sync/atomic."
+	if !strings.HasPrefix(n, pre) {
+		return "", ""
+	}
+	rest := n[len(pre):]
+	i := strings.Index(rest, ").")
+	if i < 0 {
+		return "", ""
+	}
+	t, op := rest[:i], rest[i+2:]
+	switch t {
+	case "Int32", "Int64", "Uint32", "Uint64", "Bool":
+		return t, op
+	}
+	return "", ""
+}
+
+// atomicWrap: x reduced to the value range of the atomic integer type t.
+func atomicWrap(x Term, t string) Term {
+	switch t {
+	case "Uint32":
+		return Term{fmt.Sprintf("(mod %s 4294967296)", x.S), SInt}
+	case "Uint64":
+		return Term{fmt.Sprintf("(mod %s 18446744073709551616)", x.S), SInt}
+	case "Int32":
+		return Term{fmt.Sprintf("(- (mod (+ %s 2147483648) 4294967296) 2147483648)", x.S), SInt}
+	case "Int64":
+		return Term{fmt.Sprintf("(- (mod (+ %s 9223372036854775808) 18446744073709551616) 9223372036854775808)", x.S), SInt}
+	}
+	return x
+}
+
 func isPrimitive(f *ssa.Function) bool { return primSet[primName(f)] }
 
 func (vc *VC) primitiveMod(f *ssa.Function, c *ssa.CallCommon, li *loopInfo) {
 	n := primName(f)
 	switch {
-	case strings.Contains(n, "atomic") && (strings.HasSuffix(n, ".Store") || strings.HasSuffix(n, ".Add") || strings.HasSuffix(n, ".CompareAndSwap")):
+	case strings.Contains(n, "atomic") && (strings.HasSuffix(n, ".Store") || strings.HasSuffix(n, ".Add") || strings.HasSuffix(n, ".CompareAndSwap") || strings.HasSuffix(n, ".Swap")):
 		vc.addrMod(c.Args[0], nil, li)
 	case strings.HasPrefix(n, "(*sync.WaitGroup)"):
 		vc.addrMod(c.Args[0], nil, li)
@@ -98,7 +147,58 @@ func (st *State) primitive(f *ssa.Function, args []Val, site ssa.Instruction) (V
 		fail("primitive receiver %T", args[0])
 		return PtrV{}
 	}
+	if at, op := atomicOp(n); at != "" {
+		p := recvPtr()
+		resT := func() types.Type { return f.Signature.Results().At(0).Type() }
+		switch op {
+		case "Load":
+			st.guardCheck(p, false, site, false)
+			tv := st.load(p, false).(TV)
+			tv.Typ = resT()
+			vc.runGhostLoad(st, p)
+			return tv, true
+		case "Store":
+			st.store(p, TV{st.termOf(args[1]), p.Elem})
+			vc.runGhostStore(st, p)
+			return TupleV{}, true
+		case "Swap":
+			old := st.load(p, false).(TV)
+			old.Typ = resT()
+			st.store(p, TV{st.termOf(args[1]), p.Elem})
+			vc.runGhostStore(st, p)
+			return old, true
+		case "Add":
+			cur := st.load(p, false).(TV).T
+			nv := st.define("aadd", atomicWrap(tAdd(cur, args[1].(TV).T), at))
+			st.nonnil["rg:"+nv.S] = true
+			st.assumeRange(nv, resT())
+			st.store(p, TV{nv, p.Elem})
+			vc.runGhostStore(st, p)
+			return TV{nv, resT()}, true
+		case "CompareAndSwap":
+			cur := st.load(p, false).(TV).T
+			if vc.mode == "B2" && !st.nonnil["fresh:"+p.Base.S] && at != "Bool" {
+				// B2-lite: between the earlier Load that produced the expected value and this compare-and-swap another goroutine may
+				// have changed the variable: the value the CAS meets is either the one this path knows or an arbitrary other one
+				interf := st.declare("cas.interf", SBool)
+				other := st.declare("cas.other", SInt)
+				st.assumeRange(other, f.Params[1].Type())
+				cur = st.define("cas.cur", tIte(interf, other, cur))
+			}
+			ok := tEq(cur, args[1].(TV).T)
+			nv := st.define("cas", tIte(ok, args[2].(TV).T, cur))
+			st.store(p, TV{nv, p.Elem})
+			vc.runGhostStore(st, p)
+			return TV{ok, types.Typ[types.Bool]}, true
+		}
+	}
 	switch n {
+	case "time.Since", "time.Until", "(time.Duration).Milliseconds", "strconv.Itoa", "strings.HasPrefix", "strings.HasSuffix", "strings.Contains",
+		"strings.TrimSpace", "strings.ToLower", "strings.ToUpper", "fmt.Sprint", "fmt.Sprintln", "(time.Duration).String", "(time.Duration).Seconds", "errors.Unwrap":
+		// side-effect free library functions: the result is left unconstrained (nothing the contracts say depends on it)
+		return st.freshVal("pure", f.Signature.Results().At(0).Type()), true
+	case "time.Sleep":
+		return TupleV{}, true
 	case "(*sync.RWMutex).Lock", "(*sync.Mutex).Lock":
 		k := lockKeyOf(recvPtr())
 		if vc.mode == "B1" && st.held[k] != "" {
